@@ -12,6 +12,12 @@ warnings.filterwarnings("ignore")
 
 
 def main():
+    try:  # die with the parent (a killed check must not leave compile-heavy children behind)
+        import ctypes
+        import signal
+        ctypes.CDLL("libc.so.6").prctl(1, signal.SIGKILL)
+    except Exception:
+        pass
     mod, func, inp, outp = sys.argv[1:5]
     m = importlib.import_module("harness.workers." + mod)
     f = getattr(m, func)
